@@ -445,11 +445,13 @@ type opRec struct {
 	Closed         bool
 	Items          []int // Iter: value ids
 	Arg            int64
+	SetFlag        int // Set: what the enqueue step saw: -1 unknown, 0 new key, 2 overwrite of a stored entry
 }
 
 func (e *Engine) buildOps() []*opRec {
 	var ops []*opRec
 	open := map[uint64]*opRec{}
+	openSet := map[int]*opRec{} // task -> Set in flight
 	n := int(e.nevs)
 	if n > maxEvs {
 		n = maxEvs
@@ -458,11 +460,29 @@ func (e *Engine) buildOps() []*opRec {
 		ev := &e.evs[i]
 		switch ev.Kind {
 		case EvInvoke:
-			r := &opRec{Task: int(ev.Task), OpIx: int(ev.OpIx), K: int(ev.Op), Key: int(ev.Key), InvSeq: ev.Seq, InvT: ev.T, Val: int(ev.Val), A: ev.A, B: ev.B, Arg: ev.A}
+			r := &opRec{Task: int(ev.Task), OpIx: int(ev.OpIx), K: int(ev.Op), Key: int(ev.Key), InvSeq: ev.Seq, InvT: ev.T, Val: int(ev.Val), A: ev.A, B: ev.B, Arg: ev.A, SetFlag: -1}
 			open[ev.Seq] = r
 			ops = append(ops, r)
+			if r.K == OpSet {
+				openSet[r.Task] = r
+			}
+		case EvHook:
+			// the enqueue step of a Set tells whether it overwrote a stored entry;
+			// attributable without ambiguity only when one Set is in flight
+			if ev.Op == evSetQueued || ev.Op == evSetDropped {
+				if len(openSet) == 1 {
+					for _, r := range openSet {
+						if r.SetFlag == -1 && r.Key >= 0 && r.Key < len(e.keyHash) && e.keyHash[r.Key] == ev.H {
+							r.SetFlag = int(ev.A)
+						}
+					}
+				}
+			}
 		case EvReturn:
 			if r := open[ev.Ref]; r != nil {
+				if r.K == OpSet {
+					delete(openSet, r.Task)
+				}
 				r.RetSeq, r.RetT, r.OK = ev.Seq, ev.T, ev.OK
 				if r.K == OpGet {
 					r.Val = int(ev.Val)
@@ -493,7 +513,10 @@ func (e *Engine) checkHistory() {
 	e.checkC01(ops)
 	if !e.plan.Flags.Injective {
 		// Key sets engineered to collide on the primary hash are in C01's
-		// quantifier only; no other property speaks about them.
+		// quantifier only. C02's statement is universal and holds on such key
+		// sets too, so its rule is evaluated there as well; every other oracle
+		// is silent (see DESIGN.md section 19, item 2).
+		e.checkC02(ops)
 		return
 	}
 	e.checkC02(ops)
@@ -804,6 +827,9 @@ func (e *Engine) checkC14() {
 			continue
 		}
 		probe(PrSweepEvictChecked)
+		if v.NEvict > 1 {
+			e.violate("C14", "reported-twice", fmt.Sprintf("value %d (key %d) was reported through OnEvict %d times", v.ID, v.Key, v.NEvict), v.EvictSeq)
+		}
 		if v.TTL <= 0 {
 			e.violate("C14", "sweep-evicted-no-ttl", fmt.Sprintf("expiry processing evicted value %d (key %d) which was written without a TTL", v.ID, v.Key), v.EvictSeq)
 			continue
@@ -911,6 +937,13 @@ func (e *Engine) checkModel(ops []*opRec) {
 			}
 			v := e.val(o.Val)
 			s := &ks[o.Key]
+			if o.SetFlag == 2 && (s.st == kExpired || s.st == kResident || s.st == kPending || s.st == kSettled) {
+				// the Set replaced an entry that was in the map (possibly expired
+				// and not yet swept): an overwrite is visible immediately, and no
+				// tombstone for the key is pending in these states
+				*s = kstate{kResident, v}
+				continue
+			}
 			switch s.st {
 			case kAbsent, kExpired, kDeletedClean:
 				*s = kstate{kPending, v}
